@@ -54,8 +54,16 @@ def _outcome_ok(r):
     return isinstance(e, Exception)
 
 
-@lemma({"s": str}, params=lambda tier, seed: [[k, 4 if tier == "quick" else 5] for k in PATTERNS], budget=240, thorough_budget=900, per_path=30,
-       bounds="every text of length <= 4 (quick) / 5 (thorough), every character, per pattern: parse returns a result object; no exception escapes")
+# fully symbolic text lengths per pattern: the length of the longest ordinary text of the pattern plus one (the ISO date-time, 19+ characters,
+# stops at 10 - its longer texts are parse_numeric_skeleton's)
+TEXT_LEN = {"offset:g": 10, "offset:G": 10, "offset:+HH:mm": 7, "offset:-H:mm:ss": 9, "time:iso": 12, "time:HH:mm": 6, "time:h:mm tt": 8,
+            "date:iso": 11, "date:d/M/yy": 9, "duration:roundtrip": 12, "duration:H:mm": 8, "datetime:iso": 10}
+
+
+@lemma({"s": str}, params=lambda tier, seed: [[k, TEXT_LEN[k] if tier == "quick" else TEXT_LEN[k] + 1] for k in PATTERNS], budget=400, thorough_budget=900,
+       per_path=40,
+       bounds="every text up to the pattern's natural length + 1 (6..12 characters; one more in thorough), EVERY character (all of Unicode), per "
+              "pattern: parse returns a result object whose success carries a valid value; no exception escapes")
 def parse_short_text(P):
     pat = PATTERNS[P[0]]()
     n = P[1]
